@@ -87,12 +87,6 @@ def has_single(p):
 # ------------------------------------------------------------------------------------------------------------------
 # finding classes -> signatures
 # ------------------------------------------------------------------------------------------------------------------
-def flat(x):
-    if isinstance(x, list):
-        return ",".join(sorted(flat(y) for y in x)) if x and not isinstance(x[0], str) or len(x) == 0 else "+".join(sorted(x))
-    return str(x)
-
-
 def signatures(why):
     """why: the JSON list printed by WhyEv / Why  ->  list of (signature, properties it concerns)"""
     if not why:
@@ -258,9 +252,10 @@ def model_level(c, workers):
     def ref_cfg(p, name, nidx, iidx, spec, props, hist, last=True):
         n = sum(p)
         return vlib.write_cfg(c, name, "CONSTANTS %s FixSingle = FALSE TrackLast = %s TrackHist = %s NIdx = {%s} IIdx = {%s}\n"
-                                       "SPECIFICATION %s\nVIEW RView\nINVARIANTS MTypeOK\n%sCHECK_DEADLOCK FALSE\n"
+                                       "SPECIFICATION %s\n%sINVARIANTS MTypeOK\n%sCHECK_DEADLOCK FALSE\n"
                               % (sizes_consts(p), "TRUE" if last else "FALSE", "TRUE" if hist else "FALSE",
                                  ",".join(str(i) for i in nidx), ",".join(str(i) for i in iidx), spec,
+                                 "VIEW RView\n" if hist else "",
                                  ("PROPERTIES %s\n" % props) if props else ""))
     homog = [((2, 1, 0), [2], [0, 1]), ((1, 2, 0), [1, 2], [0])] if quick else \
             [((2, 1, 0), [2], [0, 1]), ((1, 2, 0), [1, 2], [0]), ((3, 0, 0), [], [0, 1, 2]), ((3, 0, 0), [0, 1, 2], []),
